@@ -39,7 +39,7 @@ void program_timers()
 	t2.expires_after(duration(5000)); t2.async_wait([&](error_code const& e) { T(102, now_ns(), ecv(e)); asio::post(ios, [&]() { T(104, now_ns()); }); });
 	t3.expires_after(duration(9000)); t3.async_wait([&](error_code const& e) { T(103, now_ns(), ecv(e)); });
 	asio::post(ios, [&]() { T(105, now_ns()); });
-	T(106, long(s.run()), now_ns());
+	{ long const n = long(s.run()); T(106, n, now_ns()); }
 }
 
 void program_tcp_pcap()
@@ -95,7 +95,7 @@ void program_tcp_pcap()
 			T(204, now_ns(), ecv(e), ep_code(peer.address(), peer.port()));
 			if (e) return;
 			srv.non_blocking(true);
-			T(205, ep_code(srv.local_endpoint(ec).address(), srv.local_endpoint(ec).port()), ep_code(srv.remote_endpoint(ec).address(), srv.remote_endpoint(ec).port()));
+			{ tcp::endpoint const le = srv.local_endpoint(ec); tcp::endpoint const re = srv.remote_endpoint(ec); T(205, ep_code(le.address(), le.port()), ep_code(re.address(), re.port())); }
 			rd();
 		});
 		cli.open(tcp::v4(), ec);
@@ -105,7 +105,7 @@ void program_tcp_pcap()
 			if (e) return;
 			cli.non_blocking(true); wr();
 		});
-		T(207, long(s.run()), now_ns());
+		{ long const n = long(s.run()); T(207, n, now_ns()); }
 		srv.close(ec); acc.close(ec);
 		s.run();
 	}
@@ -150,7 +150,7 @@ void program_udp_nat_resolver()
 	});
 	res.async_resolve("10.0.0.9", "1", [&](error_code const& e, udp::resolver::results_type r) { T(306, now_ns(), ecv(e), long(r.size())); });
 	res.async_resolve("nohost.test", "1", [&](error_code const& e, udp::resolver::results_type r) { T(307, now_ns(), ecv(e), long(r.size())); });
-	T(308, long(s.run()), now_ns());
+	{ long const n = long(s.run()); T(308, n, now_ns()); }
 	u1.close(ec); u2.close(ec);
 	s.run();
 }
